@@ -348,7 +348,7 @@ def alt_label(a):
     return 'tick'
 
 
-def execute(scn, choices, horizon=900.0, step_cap=30000, want_fps=True, main=None, setup=None, extra_alts=None):
+def execute(scn, choices, horizon=900.0, step_cap=30000, want_fps=True, main=None, setup=None, extra_alts=None, probe=None):
     """One complete execution. `choices` = prefix of choice indices, afterwards choice 0 (canonical) everywhere.
 
     main(exp, controller, result) may replace the default stage loop; setup(exp, controller) runs before it in the
@@ -423,6 +423,8 @@ def execute(scn, choices, horizon=900.0, step_cap=30000, want_fps=True, main=Non
             x.labels.append(alt_label((kind, obj)) if kind != 'env' else 'env:' + obj[0])
             if want_fps:
                 x.fps.add(fingerprint(controller))
+            if probe is not None:
+                probe(rt, controller, x)
             if kind == 't':
                 rt.run_thread(obj)
             elif kind == 'tick':
